@@ -67,6 +67,16 @@ type Contract struct {
 	Line     int
 	Ghosts   []string // ghost statements: "name = expr" executed at exit (unused for now)
 	Uses     []string // callback contracts: caller variables visible to the contract
+	Interf   []string // locations other goroutines may change while the call blocks (lock acquisition)
+}
+
+type Transition struct {
+	Key  string
+	Tags []string
+	Src  string
+	Expr ast.Expr
+	File string
+	Line int
 }
 
 type GhostDecl struct {
@@ -99,6 +109,8 @@ type SpecSet struct {
 	Ghosts    []GhostDecl
 	Lemmas    []*Lemma
 	Defines   map[string]*Define
+	Guarded   map[string]string // heap key "T.f" -> mutex field name
+	Trans     map[string]*Transition
 }
 
 var tagRe = regexp.MustCompile(`^\[([A-Za-z0-9_, ]+)\]\s*`)
@@ -200,6 +212,41 @@ func (ss *SpecSet) parseFile(path string, dep bool) error {
 				return fmt.Errorf("%s:%d: ghost <name> <sort>", path, ln+1)
 			}
 			ss.Ghosts = append(ss.Ghosts, GhostDecl{Name: f[0], Sort: strings.TrimSpace(f[1])})
+		case "guarded":
+			// guarded T.failed, T.cleanups by mu
+			i := strings.LastIndex(rest, " by ")
+			if i < 0 {
+				return fmt.Errorf("%s:%d: guarded <fields> by <mutex field>", path, ln+1)
+			}
+			if ss.Guarded == nil {
+				ss.Guarded = map[string]string{}
+			}
+			for _, f := range splitLocs(rest[:i]) {
+				ss.Guarded[f] = strings.TrimSpace(rest[i+4:])
+			}
+			cur = nil
+		case "transition":
+			// transition T.ctx [tags]: expr over old, new
+			i := strings.Index(rest, ":")
+			if i < 0 {
+				return fmt.Errorf("%s:%d: transition <S.f>: expr", path, ln+1)
+			}
+			head, body := strings.TrimSpace(rest[:i]), strings.TrimSpace(rest[i+1:])
+			key := head
+			var tags []string
+			if j := strings.Index(head, "["); j >= 0 {
+				key = strings.TrimSpace(head[:j])
+				tags, _ = parseTags(head[j:] + " ")
+			}
+			e, err := parser.ParseExpr(body)
+			if err != nil {
+				return fmt.Errorf("%s:%d: cannot parse %q: %v", path, ln+1, body, err)
+			}
+			if ss.Trans == nil {
+				ss.Trans = map[string]*Transition{}
+			}
+			ss.Trans[key] = &Transition{Key: key, Tags: tags, Src: body, Expr: e, File: path, Line: ln + 1}
+			cur = nil
 		case "define":
 			// define name(a, b, c) = expr
 			eq := strings.Index(rest, "=")
@@ -252,6 +299,8 @@ func (ss *SpecSet) parseFile(path string, dep bool) error {
 				cur.Params = splitLocs(rest)
 			case "uses":
 				cur.Uses = splitLocs(rest)
+			case "interference":
+				cur.Interf = append(cur.Interf, splitLocs(rest)...)
 			case "results":
 				cur.Results = splitLocs(rest)
 			case "requires", "ensures", "cover":
